@@ -75,8 +75,8 @@ PROPS["C15"] = dict(jobs=None, obl=None, bounded="c15", level="other", design="4
 
 PROPS["C05"] = dict(jobs=lambda j: j.startswith("effects:") or j.startswith("graph:"), obl=lambda o: "C05" in o["name"] or "effect profile" in o["name"] or "explainable_object_base_class.ExplainableObject." in o["function"] and o["kind"] != "cover", bounded="c05", level="other", design="4 C05/C06",
                     technique="P: effect order of ModelingUpdate.__init__ and the graph layer used when values are swapped in and out (add_child / remove_child / set_modeling_obj_container contracts); bounded stand-in: dated simulations (numeric / link / list / mixed / invalid / failing change lists x 6 dates x toggle sequences) on real systems; identities, values, links, reverse links and graph edge sets compared with the baseline")
-PROPS["C06"] = dict(jobs=None, obl=None, bounded="c06", level="other", design="4 C05/C06",
-                    technique="bounded stand-in: first-hour simulation vs really applying the changes on a twin system; no simulated hour before the date; twins paired both ways; bad dates refused")
+PROPS["C06"] = dict(jobs=lambda j: j.startswith("effects:"), obl=lambda o: "C06" in o["name"] or "effect profile" in o["name"], bounded="c06", level="other", design="4 C05/C06",
+                    technique="P (statement-level facts of ModelingUpdate.__init__ only): the date is stored unchanged, a naive date is refused before any model write; bounded stand-in: first-hour simulation vs really applying the changes on a twin system; no simulated hour before the date; twins paired both ways; bad dates refused")
 
 PROPS["C08"] = dict(jobs=ANY, obl=lambda o: any(x in o["name"] for x in ("recorded ancestors", "_parent recorded", "completeness")) or "optimize_attr_updates_chain" in o["function"] or (o["function"].split(" ")[0].endswith(("add_child_to_direct_children_with_id", "remove_child_from_direct_children_with_id", "ExplainableObject.set_modeling_obj_container", "return_direct_ancestors_with_id_to_child", "ExplainableObject.__init__")) and o["kind"] != "cover"), bounded="c08", level="other", design="4 C08",
                     technique="P: every operator / helper contract pins the parents recorded on its result and the recorded-ancestor set (what the dependency edges are built from); the graph layer itself (add_child / remove_child refine set insertion / removal on a duplicate-free id list; set_modeling_obj_container, checked against those contracts over a ghost heap, leaves both ends of every edge in agreement; return_direct_ancestors_with_id_to_child and the ancestor collection of ExplainableObject.__init__: recorded ancestor ids = union of what the parents hand down, each once); B: graph consistency (both ends, held values only, acyclic) as built / after edits / after simulations and toggles; completeness by perturbing every quantity input and rebuilding; update order of every input")
